@@ -1123,6 +1123,71 @@ CORPUS = [
 # ---------------------------------------------------------------------------------------------------------
 # run
 # ---------------------------------------------------------------------------------------------------------
+def body_targets(b, acc):
+    k = b[0]
+    if k == "read":
+        acc.add(b[2])
+        body_targets(b[3], acc)
+    elif k == "cyc":
+        body_targets(b[1], acc)
+        body_targets(b[2], acc)
+    elif k == "has":
+        acc.add(b[2])
+        body_targets(b[3], acc)
+        body_targets(b[4], acc)
+    return acc
+
+
+def risky(prog):
+    """`has_value` guards + a cyclic hook dependency: the evaluation may take exponentially long (a guard that fails
+    at the recursion limit is followed by another descent).  The harness' step budget discards such cases on the
+    implementation side; the model has no budget, so these programs go to a separate model process with a timeout."""
+    if not any(body_uses(b, "has") for (_, _, b, _, _) in prog["fns"]):
+        return False
+    g = {}
+    for (_, h, b, _, _) in prog["fns"]:
+        g.setdefault(h, set()).update(body_targets(b, set()))
+    seen = {}
+
+    def cyc(h):
+        if seen.get(h) == 1:
+            return True
+        if seen.get(h) == 2:
+            return False
+        seen[h] = 1
+        r = any(cyc(x) for x in g.get(h, ()))
+        seen[h] = 2
+        return r
+    return any(cyc(h) for h in list(g))
+
+
+def model_with_timeout(lines, timeout):
+    """own model process (killed with its whole process group on timeout) -> output lines or None"""
+    import os
+    import signal
+    import subprocess
+    import tempfile
+    from driver import core
+    with tempfile.NamedTemporaryFile("w", suffix=".ops", delete=False) as f:
+        f.write("\n".join(lines) + "\n")
+        tmp = f.name
+    try:
+        with open(tmp) as fin:
+            p = subprocess.Popen(["lake", "env", "lean", "--run", "Drivers/%s.lean" % MODEL], cwd=core.LEAN_DIR, stdin=fin,
+                                 stdout=subprocess.PIPE, stderr=subprocess.PIPE, text=True, start_new_session=True)
+            try:
+                out, err = p.communicate(timeout=timeout)
+            except subprocess.TimeoutExpired:
+                os.killpg(p.pid, signal.SIGKILL)
+                p.communicate()
+                return None
+    finally:
+        os.unlink(tmp)
+    if p.returncode != 0:
+        raise core.InfraError("model driver failed rc=%s: %s" % (p.returncode, err[:2000]))
+    return out.splitlines()
+
+
 def case_lines(prog, ops, world):
     lines = ["reset", "fuel %d" % FUEL] + prog_lines(prog, world)
     for op in ops:
@@ -1249,12 +1314,29 @@ def run(ctx):
                 ctx.violation(key, mine[0][1], replay_obj(name, p2, o2, f2, mine))
         if stream in ("exotic", "wrappers") or any(body_exotic(b) for (_, _, b, _, _) in prog["fns"]):
             continue
-        lean_lines.extend(case_lines(prog, ops, w))
         pending.append((name, prog, ops, faults, resA))
 
     if not getattr(ctx, "model_available", True) or not pending:
         return
-    out = ctx.lean_model(MODEL, lean_lines)
+    safe = [c for c in pending if not risky(c[1])]
+    risk = [c for c in pending if risky(c[1])]
+    ctx.count("model-batch:plain", len(safe))
+    ctx.count("model-batch:guarded-cyclic", len(risk))
+    if safe:
+        out = ctx.lean_model(MODEL, [l for c in safe for l in case_lines(c[1], c[2], c[4]["world"])])
+        compare_model(ctx, safe, out)
+    if risk:
+        out = model_with_timeout([l for c in risk for l in case_lines(c[1], c[2], c[4]["world"])],
+                                 120 if ctx.tier == "quick" else 900)
+        if out is None:
+            ctx.disagreement("the model did not finish the guarded-recursion batch in time although the implementation "
+                             "stayed within the step budget on every case of it (the implementation evaluates these "
+                             "programs differently from the model)", {"cases": len(risk)})
+        else:
+            compare_model(ctx, risk, out)
+
+
+def compare_model(ctx, pending, out):
     pos = 0
     for (name, prog, ops, faults, resA) in pending:
         w = resA["world"]
